@@ -74,7 +74,7 @@ theorem C06_vec_end_to_end (c : Ctx) (rec : Rec) (sv : Val) (id : Nat) (tps : Li
       some (.specVec false sv (vecStructure c sv.tyName inner items (guardCap cap).toNat tps)) :=
   vec_end_to_end c rec sv id tps inner el n cap p blocks items hT hlen hn hcap hp hel hel0 hb hbl hrd hil hitems
 
-/-- **C06_vecdeque_end_to_end** (EVERY capacity, also above CAP_GUARD; repaired by 6655f7c): the memory at `p` holds the
+/-- **C06_vecdeque_end_to_end** (EVERY capacity, also above CAP_GUARD; repaired by 26a941a): the memory at `p` holds the
     ring buffer `buf` of `cap` slots ⇒ the deque is shown as exactly the logical sequence: item `i` is the element decoder's
     result on the image in slot `(head + i) % cap` — for every ring position, wrapped or not; only the slots shown are
     read (head part at its slot, wrapped part at slot 0) and only the capacity SHOWN goes through `guard_cap`. -/
